@@ -16,8 +16,9 @@ import (
 
 // FrameSet: which heap arrays a call may modify.
 type FrameSet struct {
-	All   bool
-	Names map[string]bool
+	All      bool
+	GhostAll bool // some ghost write could not be attributed to a ghost array: every ghost array may change
+	Names    map[string]bool
 }
 
 func NewFrameSet() *FrameSet { return &FrameSet{Names: map[string]bool{}} }
@@ -28,6 +29,9 @@ func (f *FrameSet) union(o *FrameSet) {
 	}
 	if o.All {
 		f.All = true
+	}
+	if o.GhostAll {
+		f.GhostAll = true
 	}
 	for n := range o.Names {
 		f.Names[n] = true
@@ -161,6 +165,8 @@ func (p *Program) writeSetX(fn *ssa.Function, skipFV bool) *FrameSet {
 			}
 			if ws.All {
 				ws.All = false
+			}
+			if ws.GhostAll {
 				for n := range heapSorts {
 					if isGhostName(n) {
 						ws.Names[n] = true
@@ -178,6 +184,15 @@ func (p *Program) writeSetX(fn *ssa.Function, skipFV bool) *FrameSet {
 	}
 	x := &Exec{prog: p, fn: fn}
 	cells := map[*ssa.Alloc]bool{}
+	if p.Spec != nil {
+		for _, r := range p.Spec.Relies {
+			if r.Pkg == fnPkgPath(fn) {
+				if efc := p.Contracts[r.Env]; efc != nil {
+					x.ghostSetFrame(nil, efc, ws)
+				}
+			}
+		}
+	}
 	for _, b := range fn.Blocks {
 		for _, in := range b.Instrs {
 			wasAll := ws.All
@@ -270,8 +285,11 @@ func (x *Exec) staticCallFrame(ci ssa.CallInstruction, loop map[*ssa.BasicBlock]
 		return
 	}
 	// dynamic function value: functype contract or everything
-	if fc := p.funcTypeContract(c.Value.Type()); fc != nil && fc.ModDeclared && len(fc.Modifies) == 0 {
-		return
+	if fc := p.funcTypeContract(c.Value.Type()); fc != nil {
+		x.ghostSetFrame(nil, fc, frame)
+		if fc.ModDeclared && len(fc.Modifies) == 0 {
+			return
+		}
 	}
 	// a closure created in this function and called through a local variable
 	if fns := localClosures(c.Value); len(fns) > 0 {
@@ -750,7 +768,7 @@ func (x *Exec) applyContract(st *State, in ssa.Instruction, fc *FuncContract, f 
 	if f != nil && len(f.Blocks) > 0 && !fc.Trusted {
 		gf := NewFrameSet()
 		ws := x.prog.writeSet(f)
-		if ws.All {
+		if ws.GhostAll {
 			for n := range heapSorts {
 				if isGhostName(n) {
 					gf.Names[n] = true
@@ -1573,6 +1591,19 @@ func (x *Exec) ghostAssign(st *State, ctx *EvalCtx, lhs Expr, rhs *Term) {
 
 // ghostSetFrame adds the ghost arrays assigned by a contract's ghostsets (statically).
 func (x *Exec) ghostSetFrame(f *ssa.Function, fc *FuncContract, frame *FrameSet) {
+	// ghost variables named in the modifies clause
+	for _, m := range fc.Modifies {
+		switch e := m.(type) {
+		case *EIdent:
+			if _, isGhost := heapSorts["GV$"+e.Name]; isGhost || x.prog.isGhostVar(e.Name) {
+				frame.Names["GV$"+e.Name] = true
+			}
+		case *EIndex:
+			if id, ok := e.X.(*EIdent); ok && x.prog.isGhostVar(id.Name) {
+				frame.Names["GV$"+id.Name] = true
+			}
+		}
+	}
 	for _, g := range fc.GhostSets {
 		switch e := g.LHS.(type) {
 		case *EIdent:
@@ -1596,6 +1627,7 @@ func (x *Exec) ghostSetFrame(f *ssa.Function, fc *FuncContract, frame *FrameSet)
 				}
 				if !found {
 					frame.All = true
+					frame.GhostAll = true
 				}
 				continue
 			}
@@ -2001,4 +2033,16 @@ func (x *Exec) escapingClosures() []*ssa.Function {
 	}
 	x.escClosures[x.fn] = out
 	return out
+}
+
+func (p *Program) isGhostVar(name string) bool {
+	if p.Spec == nil {
+		return false
+	}
+	for _, g := range p.Spec.GhostVars {
+		if g.Name == name {
+			return true
+		}
+	}
+	return false
 }
